@@ -28,8 +28,11 @@ type monitor struct {
 	db    *aquadb.MemDatabase
 	bc    *core.BlockChain
 	cache *core.CacheConfig
-	mode  string // archive | pruning
-	hdr   bool   // header-only history: the head is CurrentHeader
+	mode  string  // archive | pruning
+	hdr   bool    // header-only history: the head is CurrentHeader
+	hdb   *hookDB // non-nil: the chain runs over this wrapper of db (concurrent-writer histories)
+
+	opOverride string
 
 	given     []bool // offered to the node in a call that reached it
 	validated []bool // sticky: ledger-valid, offered, and the node had block+state after some call
@@ -49,7 +52,14 @@ type monitor struct {
 	dead                  bool // a violation was recorded that makes the rest of the history meaningless
 }
 
-func newMonitor(c *fw.Ctx, t *ltree, mode string, hdr bool) (*monitor, error) {
+func (m *monitor) chainDB() aquadb.Database {
+	if m.hdb != nil {
+		return m.hdb
+	}
+	return m.db
+}
+
+func newMonitor(c *fw.Ctx, t *ltree, mode string, hdr, hook bool) (*monitor, error) {
 	m := &monitor{c: c, t: t, mode: mode, hdr: hdr}
 	if mode == "archive" {
 		m.cache = &core.CacheConfig{Disabled: true}
@@ -59,7 +69,10 @@ func newMonitor(c *fw.Ctx, t *ltree, mode string, hdr bool) (*monitor, error) {
 	if g.Hash() != t.Genesis.Hash() {
 		return nil, fmt.Errorf("genesis mismatch")
 	}
-	bc, err := t.newChain(m.db, m.cache)
+	if hook {
+		m.hdb = &hookDB{Database: m.db}
+	}
+	bc, err := t.newChain(m.chainDB(), m.cache)
 	if err != nil {
 		return nil, err
 	}
@@ -86,6 +99,9 @@ func (m *monitor) count(class string) {
 }
 
 func (m *monitor) opName() string {
+	if m.opOverride != "" {
+		return m.opOverride
+	}
 	if m.hdr {
 		return "InsertHeaderChain"
 	}
@@ -116,6 +132,12 @@ func (m *monitor) step(o hop) {
 		m.insert(o.B)
 	case "headers":
 		m.insertHeaders(o.B)
+	case "race_import_parked":
+		m.race("import_parked", o.B[0], o.B[1])
+	case "race_local_parked":
+		m.race("local_parked", o.B[0], o.B[1])
+	case "race_free":
+		m.race("free", o.B[0], o.B[1])
 	}
 }
 
@@ -123,7 +145,7 @@ func (m *monitor) step(o hop) {
 // caches; a pruning node keeps only the states of head, head-1, head-127).
 func (m *monitor) restart() {
 	m.bc.Stop()
-	bc, err := m.t.newChain(m.db, m.cache)
+	bc, err := m.t.newChain(m.chainDB(), m.cache)
 	if err != nil {
 		m.bc = nil
 		m.c.Violate("reopen_failed", "NewBlockChain", errClass(err), err.Error())
